@@ -389,6 +389,30 @@ def regenerate_tables():
     return bad
 
 
+GEN_OF = {"cmdtables": "Gen/CmdTables", "regiontables": "Gen/RegionTables", "phytables": "Gen/PhyTables"}
+
+
+def coq_closure(target):
+    """the .v files (without extension) a target's compilation depends on, read from coqdep's output; None when unknown"""
+    try:
+        deps = {}
+        for l in open(os.path.join(COQ, ".Makefile.d")):
+            m = re.match(r'(\S+)\.vo .*?: (.*)$', l)
+            if m:
+                deps[m.group(1)] = [x[:-3] for x in m.group(2).split() if x.endswith(".vo")]
+        if target not in deps:
+            return None
+        seen, st = set(), [target]
+        while st:
+            x = st.pop()
+            if x not in seen:
+                seen.add(x)
+                st += deps.get(x, [])
+        return seen
+    except OSError:
+        return None
+
+
 def proof_stage(rep, prop_id, theorems, allowed_axioms=(), extra_targets=()):
     """Build Props/<id>.vo, scan, Print Assumptions.  Returns True iff all obligations discharged.
     On failure records a no-failing-input violation naming what no longer checks (callers may
@@ -405,7 +429,12 @@ def proof_stage(rep, prop_id, theorems, allowed_axioms=(), extra_targets=()):
     rep.cov["trusted_base"] = list(TRUSTED_BASE)
     failed = []
     rep.cov["translators"] = "tools/rs2v/{cmdtables,regiontables,phytables}.py regenerated coq/Gen from /repo's working tree before the build"
+    clo = coq_closure("Props/%s" % prop_id)
     for t in tfail:
+        if clo is not None and GEN_OF.get(t[0]) not in clo:
+            # this property's theorems do not rest on the table that translator generates
+            rep.cov.setdefault("translator_notes", []).append("%s could not read its source; Props/%s does not depend on %s" % (t[0], prop_id, GEN_OF.get(t[0])))
+            continue
         failed.append({"kind": "translator-rejected-source", "tie": "T:" + t[0], "error": t[1][-600:]})
     if bad:
         failed.append({"kind": "forbidden-construct", "where": bad})
